@@ -47,8 +47,8 @@ type session struct {
 	issuedAt time.Time
 }
 
-var userPass = map[string]string{"alice": "pw-alice", "bob": "pw-bob", "carol": "pw-carol"}
-var userID = map[string]string{"alice": "u1", "bob": "u2", "carol": "tenant1:carol"}
+var userPass = map[string]string{"alice": "pw-alice", "bob": "pw-bob", "carol": "pw-carol", "dave": "pw-dave"}
+var userID = map[string]string{"alice": "u1", "bob": "u2", "carol": "tenant1:carol", "dave": "dave+x@sim.example/1 %7E|9"}
 
 func fill(w *world.World, o *flowOpts) {
 	if o.client == "" {
